@@ -18,7 +18,17 @@ def load_code(artdir, name, backend):
     text = open(path).read()
     code, directives = TOKENIZERS[backend](text)
     labels, dups = labels_of(code)
-    return {"code": code, "labels": labels, "dups": dups, "directives": directives, "text": text}
+    out = {"code": code, "labels": labels, "dups": dups, "directives": directives, "text": text}
+    # byte addresses in units of one instruction (AArch64 / RISC-V: every instruction is 4 bytes)
+    addr, ataddr, n = [], [], 0
+    for i, ins in enumerate(code, 1):
+        addr.append(n)
+        if ins["op"] not in ("label", "mark"):
+            n += 1
+            ataddr.append(i)
+    out["addr"], out["ataddr"] = addr, ataddr
+    out["entry"] = next((i for i, ins in enumerate(code, 1) if ins["op"] == "label"), 1)
+    return out
 
 
 def make_inputs(artdir, workdir, backend, cases, maxsteps=200000, nblocks=256, footprint_k=2):
@@ -28,10 +38,11 @@ def make_inputs(artdir, workdir, backend, cases, maxsteps=200000, nblocks=256, f
         if name not in pidx:
             c = load_code(artdir, name, backend)
             q = index_axcut(json.load(open(os.path.join(artdir, name + ".axcutlin.json"))))
-            progs.append({"name": name, "code": c["code"], "labels": c["labels"], "prog": q})
+            progs.append({"name": name, "code": c["code"], "labels": c["labels"], "prog": q,
+                          "addr": c["addr"], "ataddr": c["ataddr"], "entry": c["entry"]})
             pidx[name] = len(progs)
         tcases.append({"p": pidx[name], "name": "%s@%s" % (name, ",".join(map(str, args))),
-                       "args": [tok_x86.limbs(a) if False else _limbs(a) for a in args]})
+                       "args": [_limbs(a) for a in args]})
     cfg = json.load(open(os.path.join(artdir, backend + ".config.json")))
     cfg.update({"maxsteps": maxsteps, "nblocks": nblocks, "footprint_k": footprint_k})
     os.makedirs(workdir, exist_ok=True)
